@@ -12,6 +12,7 @@ import (
 
 	"github.com/pkg/errors"
 	"github.com/pkg/xattr"
+	"golang.org/x/sys/unix"
 )
 
 // NewLocalFS initializes a new instance of a local filesystem that
@@ -97,6 +98,13 @@ func (fs *LocalFS) SetSymlinkPermissions(n NodeSymlink) error {
 	}
 
 	return nil
+}
+
+// lchtimes sets the modification time of a symlink itself, os.Chtimes would
+// follow it.
+func lchtimes(name string, t time.Time) error {
+	ts := unix.NsecToTimespec(t.UnixNano())
+	return unix.UtimesNanoAt(unix.AT_FDCWD, name, []unix.Timespec{ts, ts}, unix.AT_SYMLINK_NOFOLLOW)
 }
 
 func (fs *LocalFS) CreateDevice(n NodeDevice) error {
